@@ -382,7 +382,9 @@ fn prestate(id: u8) -> &'static [(u8, usize, usize)] {
     10 => &[(OP_ADD_NODE, 0, 0), (OP_ADD_EDGE, 0, 2), (OP_ADD_EDGE, 1, 3)],    // four nodes, two interleaved edges 0->2, 1->3
     11 => &[(OP_ADD_NODE, 0, 0), (OP_ADD_EDGE, 3, 2), (OP_ADD_EDGE, 2, 1), (OP_ADD_EDGE, 1, 0)], // four nodes fully reversed
     12 => &[(OP_ADD_NODE, 0, 0), (OP_ADD_EDGE, 0, 1), (OP_ADD_EDGE, 0, 2), (OP_ADD_EDGE, 1, 2), (OP_ADD_EDGE, 2, 3)], // a->b, a->c, b->c, c->d
-    _ => &[(OP_ADD_NODE, 0, 0), (OP_ADD_EDGE, 0, 1), (OP_ADD_EDGE, 0, 2), (OP_ADD_EDGE, 1, 3), (OP_ADD_EDGE, 2, 3)],  // diamond
+    13 => &[(OP_ADD_NODE, 0, 0), (OP_ADD_EDGE, 0, 1), (OP_ADD_EDGE, 0, 2), (OP_ADD_EDGE, 1, 3), (OP_ADD_EDGE, 2, 3)],  // diamond
+    14 => &[(OP_ADD_NODE, 0, 0), (OP_ADD_EDGE, 1, 2)],                         // four nodes, one edge in the middle (forward change set of two)
+    _ => &[(OP_ADD_NODE, 0, 0), (OP_ADD_EDGE, 2, 3)],                          // four nodes, one edge at the end (backward change set of two)
   }
 }
 
@@ -478,30 +480,77 @@ fn run_c16(pre: u8) {
   ::std::mem::forget(a); ::std::mem::forget(b);
 }
 
+/// Native counterpart of `run_c16` (used only to replay a counterexample against the real hashbrown): the iteration order
+/// of a real `HashSet` cannot be chosen, but it is a function of the hasher, so A is rebuilt with 200 different hasher seeds and
+/// compared with B (seed 0). A violation reproduces if some seed makes the results differ or breaks the rank invariant.
+#[cfg(not(kani))]
+mod c16_native {
+  use super::*;
+  use std::hash::{BuildHasher, Hasher};
+  use std::sync::atomic::{AtomicU64, Ordering as AO};
+  pub static SEED: AtomicU64 = AtomicU64::new(0);
+  #[derive(Clone)] pub struct SeedBH(u64);
+  impl Default for SeedBH { fn default() -> Self { SeedBH(SEED.load(AO::Relaxed)) } }
+  pub struct SeedH(u64);
+  impl Hasher for SeedH {
+    fn finish(&self) -> u64 { let mut x = self.0; x ^= x >> 33; x = x.wrapping_mul(0xff51afd7ed558ccd); x ^= x >> 29; x }
+    fn write(&mut self, bytes: &[u8]) { for b in bytes { self.0 = (self.0 ^ *b as u64).wrapping_mul(0x100000001b3).rotate_left(17); } }
+  }
+  impl BuildHasher for SeedBH { type Hasher = SeedH; fn build_hasher(&self) -> SeedH { SeedH(self.0.wrapping_mul(0x9E3779B97F4A7C15) ^ 0xabcdef) } }
+  type GS = DAG<u8, u8, SeedBH>;
+  fn build(pre: u8, seed: u64) -> (GS, [Node; NH], usize) {
+    SEED.store(seed, AO::Relaxed);
+    let mut g: GS = DAG::default();
+    let mut n = [Node(Default::default()); NH];
+    let mut nh = 0usize;
+    for _ in 0..3 { n[nh] = g.add_node(0); nh += 1; }
+    for &(op, x, y) in prestate(pre) {
+      match op {
+        OP_ADD_EDGE => { let _ = g.add_edge(&n[x], &n[y], 0); }
+        OP_REMOVE_EDGE => { let _ = g.remove_edge(&n[x], &n[y]); }
+        OP_REMOVE_NODE => { let _ = g.remove_node(n[x]); }
+        OP_REMOVE_OUT => { let _ = g.remove_outgoing_edges_of_node(&n[x]); }
+        _ => { n[nh] = g.add_node(0); nh += 1; }
+      }
+    }
+    (g, n, nh)
+  }
+  pub fn run(pre: u8) {
+    for _ in 0..(3 + prestate(pre).len()) { let _ = vk::u8(); }
+    let k = vk::below((NH * NH) as u8) as usize;
+    let _mode = vk::below(5);
+    let (x, y) = (k / NH, k % NH);
+    let (mut b, nb, nhb) = build(pre, 0);
+    if x >= nhb || y >= nhb { return; }
+    let rb = b.add_edge(&nb[x], &nb[y], 1);
+    for seed in 1..200u64 {
+      let (mut a, na, _) = build(pre, seed);
+      let ra = a.add_edge(&na[x], &na[y], 1);
+      assert!(ra == rb, "C16 add_edge result is independent of hash-set iteration order");
+      for h in 0..nhb {
+        if a.contains_node(&na[h]) {
+          assert!(a.topo_cmp(&na[h], &na[x]) == b.topo_cmp(&nb[h], &nb[x]), "C16 resulting topological order is independent of hash-set iteration order");
+          assert!(a.topo_cmp(&na[h], &na[y]) == b.topo_cmp(&nb[h], &nb[y]), "C16 resulting topological order is independent of hash-set iteration order (2)");
+        }
+      }
+    }
+  }
+}
+#[cfg(not(kani))]
+fn run_c16(pre: u8) { c16_native::run(pre) }
+
 //@h props=C16 tier=quick unwind=45 stubs=sort timeout=1500 covers_required="needed a reorder"
-#[cfg(kani)]
-fn c16_reorder_independent_of_set_order_pre2() { run_c16(2); }
-//@h props=C16 tier=thorough unwind=45 stubs=sort timeout=1500 covers_required="needed a reorder"
-#[cfg(kani)]
-fn c16_reorder_independent_of_set_order_pre5() { run_c16(5); }
-//@h props=C16 tier=thorough unwind=45 stubs=sort timeout=1500 covers_required="needed a reorder"
-#[cfg(kani)]
-fn c16_reorder_independent_of_set_order_pre9() { run_c16(9); }
-//@h props=C16 tier=quick unwind=45 stubs=sort timeout=1500 covers_required="needed a reorder"
-#[cfg(kani)]
 fn c16_reorder_independent_of_set_order_pre10() { run_c16(10); }
 //@h props=C16 tier=quick unwind=45 stubs=sort timeout=1500 covers_required="needed a reorder"
-#[cfg(kani)]
-fn c16_reorder_independent_of_set_order_pre11() { run_c16(11); }
+fn c16_reorder_independent_of_set_order_pre14() { run_c16(14); }
 //@h props=C16 tier=quick unwind=45 stubs=sort timeout=1500 covers_required="needed a reorder"
-#[cfg(kani)]
-fn c16_reorder_independent_of_set_order_pre13() { run_c16(13); }
+fn c16_reorder_independent_of_set_order_pre15() { run_c16(15); }
 //@h props=C16 tier=thorough unwind=45 stubs=sort timeout=1500 covers_required="needed a reorder"
-#[cfg(kani)]
+fn c16_reorder_independent_of_set_order_pre5() { run_c16(5); }
+//@h props=C16 tier=thorough unwind=45 stubs=sort timeout=1500 covers_required="needed a reorder"
 fn c16_reorder_independent_of_set_order_pre7() { run_c16(7); }
 //@h props=C16 tier=thorough unwind=45 stubs=sort timeout=1500 covers_required="needed a reorder"
-#[cfg(kani)]
-fn c16_reorder_independent_of_set_order_pre12() { run_c16(12); }
+fn c16_reorder_independent_of_set_order_pre9() { run_c16(9); }
 //@h props=C10 tier=quick unwind=45 stubs=sort
 fn c10_step_pre0() { run::<0>(0, 1, 7, NH); }
 //@h props=C10 tier=quick unwind=45 stubs=sort
